@@ -39,16 +39,24 @@ def _is_field(fn, operand, name):
 
 def _rules(ck, prog, cfg):
     # ---- R19.1
+    # anchored on what is done, not on where: every hasher construction / hash feed / finish anywhere in hash_ring.rs (the two
+    # helper functions of the reference tree, or their bodies inlined into add_node / get_replicas_with_rf)
     n1 = 0
-    for name in ("hash_key", "hash_virtual_node"):
-        f = prog.one(HR + name)
+    hashing = re.compile(r"Hasher|std::hash::Hash>::hash|RandomState|BuildHasher|::hash_one")
+    for f in prog.lib_fns():
+        if f.file != "src/replication/hash_ring.rs" or "::tests::" in f.id or f.d.get("implements") == "std::hash::Hash::hash":
+            continue        # derived `Hash` impls feed whatever hasher they are given
+        k = 0
         for b, t in f.calls():
-            n1 += 1
             c = (t.get("fnargs") or callee(t))
+            if not (hashing.search(c) or any(re.search(p, c) for p in NONDET)):
+                continue
+            n1 += 1
+            k += 1
             ok = bool(re.search(r"^std::hash::DefaultHasher::new$|^<(str|u64|u32|usize|u8|\[u8\]) as std::hash::Hash>::hash::<std::hash::DefaultHasher>$|"
                                 r"^<std::hash::DefaultHasher as std::hash::Hasher>::finish$", c))
             bad = any(re.search(p, c) for p in NONDET)
-            ck.check(ok and not bad, "R19.1", "%s:%s#%d%s" % (name, c.rsplit("::", 1)[-1].split("<")[0], n1, _tag(cfg)),
+            ck.check(ok and not bad, "R19.1", "%s:%s#%d%s" % (f.short, c.rsplit("::", 1)[-1].split("<")[0], k, _tag(cfg)),
                      "ring position hashing calls %s: placement would differ between processes/nodes, so replicas disagree on who owns a key" % c,
                      f.where(t["ln"]), detail=c[-60:])
     ck.floor("R19.1" + _tag(cfg), n1, 6)
@@ -72,7 +80,7 @@ def _rules(ck, prog, cfg):
             pos = src_of_operand(f, gt["args"][1])
             if pos.kind == "agg" and pos.rv["ak"] == "tuple":
                 p0 = src_of_operand(f, pos.rv["ops"][0])
-                ck.check(p0.kind == "call" and is_callee(p0.term, r"HashRing::hash_virtual_node$"), "R19.2", "%s:position-from-hash%s" % (f.short, _tag(cfg)),
+                ck.check(p0.kind == "call" and is_callee(p0.term, r"HashRing::hash_virtual_node$", r"DefaultHasher as std::hash::Hasher>::finish$"), "R19.2", "%s:position-from-hash%s" % (f.short, _tag(cfg)),
                          "a ring position does not come from hash_virtual_node (%s)" % p0.path(), f.where(gt["ln"]), detail="position = hash_virtual_node(node, i)")
             elif is_callee(gt, r"Extend<.*>>::extend"):
                 # ring.extend((0..n).map(|i| (hash_virtual_node(..), vnode))): the tuple is built in the mapping closure
@@ -82,7 +90,7 @@ def _rules(ck, prog, cfg):
                         rv = st["rv"]
                         if rv["k"] == "agg" and rv.get("ak") == "tuple" and rv.get("ops"):
                             q0 = src_of_operand(ch, rv["ops"][0])
-                            if q0.kind == "call" and is_callee(q0.term, r"HashRing::hash_virtual_node$"):
+                            if q0.kind == "call" and is_callee(q0.term, r"HashRing::hash_virtual_node$", r"DefaultHasher as std::hash::Hasher>::finish$"):
                                 good = True
                 ck.check(good, "R19.2", "%s:position-from-hash%s" % (f.short, _tag(cfg)),
                          "ring positions added by extend() do not come from hash_virtual_node", f.where(gt["ln"]), detail="position = hash_virtual_node(node, i) in the mapping closure")
